@@ -35,6 +35,18 @@ Theorem C15_inflight_keep :
 Proof. exact inflight_keep. Qed.
 Print Assumptions C15_inflight_keep.
 
+(* Only completely and successfully loaded configurations are ever seen: in every interleaving the snapshot a request
+   holds is the initial configuration or the version of a reload whose LoadServerDataConf succeeded - never the
+   version of a failing reload, whatever point that reload has reached. *)
+Theorem C15_snapshot_installed :
+  forall (v g : Z) (ts : list thread) (sched : list nat),
+    Forall fresh_thread ts ->
+    forall i q x, nth_error (threads (exec (mkState (init_shared v g) ts) sched)) i = Some (TReq q) ->
+    rq_snap q = Some x ->
+    x = v \/ exists k r, nth_error ts k = Some (TReload r) /\ rl_ver r = x /\ rl_ok r = true.
+Proof. exact snapshot_installed. Qed.
+Print Assumptions C15_snapshot_installed.
+
 (* BalTable RWMutex protocol (BalTableReload vs Lookup): in EVERY interleaving, no request looks its cluster up in the
    half-built table that exists inside BalTableReload between emptying the old map and assigning the new one - the
    writer holds t.lock for that whole span and Lookup takes the read lock. *)
@@ -44,6 +56,37 @@ Theorem C15_baltable_lock :
     forall i q, nth_error (threads (exec (mkState (init_shared v g) ts) sched)) i = Some (TReq q) -> rq_mid q = false.
 Proof. exact baltable_lock. Qed.
 Print Assumptions C15_baltable_lock.
+
+(* The model satisfies the property predicate that the harness evaluates on the implementation (prop_C15: every view of
+   a request shows, in all fields filled so far, the version that was installed when the request STARTED; successful
+   reloads install their version, failing ones change nothing; the balancer generation is the one current at lookup
+   time) on EVERY input made of sequential ops - reloads, failing reloads, gslb reloads, request starts and
+   continuations through the hold points.  Partial: inputs containing a concurrent-burst op [5 ...] are excluded (for
+   those the model's answer is computed from one pseudo-random schedule; that all requests of ANY schedule are
+   consistent is C15_single_snapshot + C15_baltable_lock above). *)
+Theorem C15_prop_of_model_partial : forall i ops,
+  decode_C15 i = Some ops -> forallb (fun o => negb (is_burst o)) ops = true ->
+  prop_C15 i (run_C15 i) = true.
+Proof. exact prop_C15_of_model_partial. Qed.
+Print Assumptions C15_prop_of_model_partial.
+
+(* The follow-up steps: a reload of version v that runs alone from a quiet state (no lock held) ends with
+   srv.ServerConf, the transports, the balancers' GslbBasic and slow-start parameters all at v. *)
+Theorem C15_reload_converges : forall ts v0 g tr gb ss v,
+  sh (run_thread 10 (mkState (Q v0 g tr gb ss) (ts ++ [new_reload v true])) (length ts)) = Q v g v v v.
+Proof. exact reload_converges. Qed.
+Print Assumptions C15_reload_converges.
+
+(* ... whereas two OVERLAPPING ServerDataConfReload calls can finish with srv.ServerConf at the newer version 3 and the
+   transports and the balancers' GslbBasic / slow-start parameters at the older version 2 (model-level observation about the separate
+   non-atomic follow-up steps; balancer parameters are shared state outside the per-request snapshot). *)
+Theorem C15_overlapping_reloads_stale_gslb_basic :
+  exists sched,
+    let st := exec (mkState (init_shared 1 1) [new_reload 2 true; new_reload 3 true]) sched in
+    threads st = [TReload (mkReload 2 true 7); TReload (mkReload 3 true 7)] /\
+    conf (sh st) = 3 /\ transports (sh st) = 2 /\ gslb_basic (sh st) = 2 /\ slow_start (sh st) = 2.
+Proof. exact overlapping_reloads_stale. Qed.
+Print Assumptions C15_overlapping_reloads_stale_gslb_basic.
 
 (* Non-vacuity: a request snapshots version 1, a reload to version 2 completes while the request is between its first
    and second lookup, the request still sees [1;1;1] although version 2 is installed at the end. *)
@@ -67,3 +110,11 @@ Example C15_baltable_example :
   let st := exec (mkState (init_shared 1 1) [new_greload 2; new_request]) [0;0;0;1;1;1;1;1;0;0;1]%nat in
   nth_error (threads st) 1 = Some (TReq (mkRequest 5 (Some 1) [1;1;1] (Some 2) false)).
 Proof. exact baltable_example. Qed.
+
+(* Non-vacuity for C15_prop_of_model_partial: a burst-free input with reloads while a request is held. *)
+Example C15_prop_example :
+  let i := VL [VL [VZ 3; VZ 0; VZ 1]; VL [VZ 1; VZ 2]; VL [VZ 4; VZ 0; VZ 2]; VL [VZ 6; VZ 3]; VL [VZ 2; VZ 2]; VL [VZ 4; VZ 0; VZ 0]] in
+  (exists ops, decode_C15 i = Some ops /\ forallb (fun o => negb (is_burst o)) ops = true) /\
+  run_C15 i = VL [VL [VZ 1; VZ 0; VZ 0; VZ 0; VZ 0; VZ 0; VZ 0]; VL [VZ 0; VZ 2]; VL [VZ 1; VZ 1; VZ 0; VZ 0; VZ 0; VZ 0; VZ 0];
+                  VL [VZ 1; VZ 2]; VL [VZ 0]; VL [VZ 1; VZ 1; VZ 1; VZ 1; VZ 1; VZ 2; VZ 200]].
+Proof. exact prop_example. Qed.
